@@ -32,6 +32,19 @@ def _retrieve(cx, p, op, got):
         cx.check(p.get_message() is None, 'None-iff-empty')
 
 
+def _drain(cx, p, style):
+    """Everything that is left, through iteration or through get_message() until None."""
+    if style == 0:
+        return list(p)
+    out = []
+    for _ in range(64):
+        m = p.get_message()
+        if m is None:
+            break
+        out.append(m)
+    return out
+
+
 def _same_messages(cx, a, b):
     return len(a) == len(b) and cx.And(*[cx.eq(x.bytes(), y.bytes()) for x, y in zip(a, b)]) \
         and all(x.type == y.type for x, y in zip(a, b))
@@ -51,6 +64,8 @@ def chunked(cx, N, with_ops, part=None, styles=3):
     p = mido.Parser()
     got = []
     chunk = []
+    if with_ops and cx.bool('poll_empty_first'):
+        cx.check(p.get_message() is None and p.pending() == 0, 'None-iff-empty')    # polling before anything arrived
     for i in range(N):
         chunk.append(bs[i])
         last = (i == N - 1)
@@ -68,7 +83,7 @@ def chunked(cx, N, with_ops, part=None, styles=3):
             chunk = []
             if with_ops and not last:
                 _retrieve(cx, p, OPS[cx.choice('op%d' % i, len(OPS))], got)
-    rest = list(p)
+    rest = _drain(cx, p, cx.choice('drain', 2) if with_ops else 0)
     cx.check(p.pending() == 0 and p.get_message() is None, 'None-iff-empty')
     got += rest
     cx.observe('got', [m.bytes() for m in got])
@@ -123,13 +138,14 @@ def retrieval_lemmas(cx, k, active, j):
     p2, _ = arbitrary_parser(cx, mido, k, active, queued=j)
     queued = list(p2.messages)
     g1, g2 = [], []
+    style = cx.choice('drain', 2)
     _retrieve(cx, p1, op, g1)
     p1.feed([y])
-    g1 += list(p1)
+    g1 += _drain(cx, p1, style)
     p2.feed([y])
     new = list(p2.messages)[j:]
     _retrieve(cx, p2, op, g2)
-    g2 += list(p2)
+    g2 += _drain(cx, p2, style)
     cx.observe('got', [m.bytes() for m in g1])
     cx.check(_same_messages(cx, g1, g2), 'retrieval-commutes-with-feed')
     # FIFO: what comes out is the old queue, then the new messages
